@@ -505,13 +505,13 @@ def io_test(r):
             fmt_src(f), ['/*general*/', 'std::fixed', 'std::scientific'][mode], prec, vk)
         call = 'rt::os_f(C, %d, %d, %d, rt::Fmt%s)' % (mode, prec, vk, fmt_arg(f))
     elif kind in ('is_z', 'is_q'):
-        base = r.choice([0, 1, 2, 3]); up = r.random() < 0.3; sub = r.randrange(24)
+        base = r.choice([0, 1, 2, 3]); up = r.random() < 0.3; sub = r.randrange(72)
         src = 'is >> %s >> %s;  // text from %s_get_str%s' % (
             ['std::dec', 'std::hex', 'std::oct', 'std::resetiosflags(std::ios::basefield)'][base], VARS[kind[-1].upper()][w],
             'mp' + kind[-1], ' with 0x/0 prefixes' if base == 3 else '')
         call = 'rt::%s(C, %d, %d, %s, %d)' % (kind, w, base, str(up).lower(), sub)
     else:
-        si = r.randrange(12); p = r.choice([64, 128, 256])
+        si = r.randrange(24); p = r.choice([64, 128, 256])
         src = 'is >> x;  // mpf_class x(99, %d), decimal string #%d' % (p, si)
         call = 'rt::is_f(C, %d, %d)' % (si, p)
     return Test(src, ['return %s;' % call], {'stream_io': 1, 'io:' + kind: 1})
